@@ -144,3 +144,8 @@ Theorem C01_code_trun_tie : ltac:(let t := type of @EquivTls.trun_tie in exact t
 Proof. exact (@EquivTls.trun_tie). Qed.
 Print Assumptions C01_code_trun_tie.
 
+(* ---- tie to the code: every loop.create_server call leaves asyncio's TLS handshake / shutdown timing at its defaults (a shorter shutdown allowance cuts large responses to slow readers short) (coq/Proofs/TlsListeners.v): re-checked here against the definitions regenerated from /repo's working tree; see DESIGN.md 11.8 ---- *)
+From NV Require Proofs.TlsListeners.
+Theorem C01_code_listeners_default_timing : ltac:(let t := type of @TlsListeners.listeners_default_timing in exact t).
+Proof. exact (@TlsListeners.listeners_default_timing). Qed.
+Print Assumptions C01_code_listeners_default_timing.
